@@ -13,6 +13,7 @@ package c36
 
 import (
 	"context"
+	"errors"
 	"fmt"
 	"math/rand/v2"
 	"strings"
@@ -162,7 +163,15 @@ type provHandler struct {
 	gone []uint32
 	// lastInv: the invoker object added last (re-added by "add-same")
 	lastInv *dummyInvoker
+	// exit: the harness tells the resolver function to RETURN with this error
+	// (nil, context.Canceled, another error); the directive and the values the
+	// resolver attached stay
+	exit   chan error
+	exited bool
 }
+
+// errResolverFailed is the "other error" a provider resolver may exit with.
+var errResolverFailed = errors.New("c36: provider resolver failed")
 
 // notAnInvoker is a value type that does not implement srpc.Invoker.
 type notAnInvoker struct{ n int }
@@ -221,7 +230,7 @@ func (p *provider) resolve(ctx context.Context, h directive.ResolverHandler) err
 	if ctx.Err() != nil {
 		return nil // cancelled before it started (provider already removed)
 	}
-	ph := &provHandler{h: h}
+	ph := &provHandler{h: h, exit: make(chan error, 1)}
 	p.mu.Lock()
 	if !p.up {
 		p.mu.Unlock()
@@ -244,8 +253,12 @@ func (p *provider) resolve(ctx context.Context, h directive.ResolverHandler) err
 	case p.started <- struct{}{}:
 	default:
 	}
-	<-ctx.Done()
-	return nil
+	select {
+	case <-ctx.Done():
+		return nil
+	case err := <-ph.exit:
+		return err
+	}
 }
 
 // cur returns the current live handler (nil when down / not started).
@@ -347,6 +360,22 @@ func (p *provider) do(ctx context.Context, b bus.Bus, op string, pick int) strin
 		return "noop"
 	}
 	switch op {
+	case "exit-nil", "exit-canceled", "exit-err":
+		// the resolver function returns (the provider gives up / finishes /
+		// fails); the controller stays, the directive stays, its values stay
+		if h.exited {
+			return "noop"
+		}
+		h.exited = true
+		switch op {
+		case "exit-nil":
+			h.exit <- nil
+		case "exit-canceled":
+			h.exit <- context.Canceled
+		default:
+			h.exit <- errResolverFailed
+		}
+		return op
 	case "add":
 		p.nextVal++
 		inv := &dummyInvoker{p.nextVal}
@@ -451,6 +480,8 @@ func (h *history) String() string {
 		switch s.kind {
 		case "op":
 			fmt.Fprintf(&sb, " p%d.%s", s.prov, s.op)
+		case "flood":
+			fmt.Fprintf(&sb, " flood{p%d:%s}", s.prov, strings.Join(s.ops[0], ","))
 		case "burst":
 			sb.WriteString(" burst{")
 			for i, l := range s.ops {
@@ -573,7 +604,60 @@ func genHistory(rng *rand.Rand) *history {
 	return h
 }
 
-var selGoroutines = []string{"bifrost/rpc/access", "controllerbus", "verifharness/checks/c36.(*provider)"}
+// decorate adds, from a PRNG stream of its own, the two history classes that
+// the base generator does not produce:
+//
+//   - resolver exits: a provider's resolver function RETURNS (nil /
+//     context.Canceled / another error) while the lookup stream is open; the
+//     provider keeps its values and may later be removed and added again (a
+//     fresh resolver replaces the exited one);
+//   - floods: the stream's Send gate is held while 40-100 effective provider
+//     changes (availability and idle toggles) happen, then released.
+func decorate(rng *rand.Rand, h *history) {
+	if h.nProv == 0 {
+		return
+	}
+	if rng.IntN(100) < 45 {
+		for k := 1 + rng.IntN(3); k > 0; k-- {
+			op := []string{"exit-canceled", "exit-canceled", "exit-nil", "exit-err"}[rng.IntN(4)]
+			p := rng.IntN(h.nProv)
+			// position: anywhere before the final (gate-open, checkpoint) pair
+			pos := rng.IntN(len(h.steps) - 1)
+			if s := &h.steps[pos]; s.kind == "burst" && rng.IntN(2) == 0 {
+				l := s.ops[p]
+				at := rng.IntN(len(l) + 1)
+				l = append(l[:at:at], append([]string{op}, l[at:]...)...)
+				s.ops[p] = l
+				continue
+			}
+			ns := step{kind: "op", prov: p, op: op}
+			h.steps = append(h.steps[:pos:pos], append([]step{ns}, h.steps[pos:]...)...)
+		}
+	}
+	if rng.IntN(100) < 20 {
+		p := rng.IntN(h.nProv)
+		n := 40 + rng.IntN(61)
+		var l []string
+		for len(l) < n {
+			switch rng.IntN(4) {
+			case 0:
+				l = append(l, "add", "remove")
+			case 1:
+				l = append(l, "busy", "idle")
+			case 2:
+				l = append(l, "add", "busy", "remove", "idle")
+			default:
+				l = append(l, "busy", "add", "idle", "remove")
+			}
+		}
+		blk := []step{{kind: "gate-close"}, {kind: "flood", prov: p, ops: [][]string{l}, pick: rng.IntN(8)},
+			{kind: "checkpoint"}, {kind: "gate-open"}, {kind: "checkpoint"}}
+		pos := rng.IntN(len(h.steps) - 1)
+		h.steps = append(h.steps[:pos:pos], append(blk, h.steps[pos:]...)...)
+	}
+}
+
+var selGoroutines = []string{"bifrost/rpc/access", "controllerbus", "verifharness/checks/c36.(*provider)", "verifharness/checks/c36.(*runningStream)"}
 
 type idleObs struct {
 	mu   sync.Mutex
@@ -585,6 +669,17 @@ type idleObs struct {
 type runningStream struct {
 	s    *fakeStream
 	done chan error
+	// returned: the LookupRpcService call has returned
+	returned atomic.Bool
+}
+
+// run runs the real call. A method, so that the goroutine is selected by the
+// quiescence detector until the returned flag is set.
+func (rs *runningStream) run(srv *bifrost_rpc_access.AccessRpcServiceServer, req *bifrost_rpc_access.LookupRpcServiceRequest, total *atomic.Int64) {
+	err := srv.LookupRpcService(req, rs.s)
+	rs.returned.Store(true)
+	total.Add(1)
+	rs.done <- err
 }
 
 // runHistory executes one history and judges it. Returns whether any report
@@ -614,7 +709,7 @@ func runHistory(r *vf.Run, h *history, idx int) (nontrivial bool, obsSig string)
 	startStream := func() *runningStream {
 		rs := &runningStream{s: newFakeStream(ctx, fmt.Sprintf("s%d", len(streams)+1), &total), done: make(chan error, 1)}
 		streams = append(streams, rs)
-		go func() { rs.done <- srv.LookupRpcService(req, rs.s) }()
+		go rs.run(srv, req, &total)
 		return rs
 	}
 
@@ -696,6 +791,10 @@ func runHistory(r *vf.Run, h *history, idx int) (nontrivial bool, obsSig string)
 	}
 
 	gateClosed := false
+	// fatalExit: a resolver has been told to exit with an error other than
+	// context.Canceled. The server ends the stream with that error once the
+	// directive is idle; a stream that has returned owes no further reports.
+	var fatalExit atomic.Bool
 	witness := func() map[string]any {
 		w := map[string]any{"history": h.String(), "index": idx}
 		for _, rs := range streams {
@@ -765,6 +864,10 @@ func runHistory(r *vf.Run, h *history, idx int) (nontrivial bool, obsSig string)
 					lastIdle = m
 				}
 			}
+			if fatalExit.Load() && rs.returned.Load() {
+				r.Count("quiescent_checks_skipped_stream_ended_by_resolver_error", 1)
+				continue
+			}
 			r.Count("quiescent_checks", 1)
 			if live > 0 && lastEx != "E" {
 				r.Violation("c36/quiescent-not-reported-exists", fmt.Sprintf("stream %s at %s: %d provider value(s) live but the last availability report is %q", rs.s.name, where, live, lastEx), witness())
@@ -815,6 +918,15 @@ func runHistory(r *vf.Run, h *history, idx int) (nontrivial bool, obsSig string)
 			if !waitHandlers() {
 				return false, ""
 			}
+			if s.op == "exit-err" {
+				// set before the op: the stream may end as soon as it is done
+				p := provs[s.prov]
+				p.mu.Lock()
+				if h := p.cur(); p.up && h != nil && !h.exited {
+					fatalExit.Store(true)
+				}
+				p.mu.Unlock()
+			}
 			res := provs[s.prov].do(ctx, b, s.op, s.pick)
 			r.Count("ops_"+res, 1)
 			if res == "up-nostart" {
@@ -830,6 +942,13 @@ func runHistory(r *vf.Run, h *history, idx int) (nontrivial bool, obsSig string)
 				if len(l) == 0 {
 					continue
 				}
+				for _, op := range l {
+					if op == "exit-err" {
+						// inside a burst the provider may go up / down before the
+						// op: whether it takes effect is known only afterwards
+						fatalExit.Store(true)
+					}
+				}
 				wg.Add(1)
 				go func(p *provider, l []string) {
 					defer wg.Done()
@@ -841,6 +960,32 @@ func runHistory(r *vf.Run, h *history, idx int) (nontrivial bool, obsSig string)
 			}
 			wg.Wait()
 			r.Count("bursts", 1)
+		case "flood":
+			// the streams' Send is held (preceding gate-close): everything the
+			// server wants to report piles up behind the one Send in flight.
+			// First bring the directive to "no provider value, every resolver
+			// idle" so that each add/remove and busy/idle pair is a change.
+			if !waitHandlers() {
+				return false, ""
+			}
+			for _, p := range provs {
+				r.Count("ops_"+p.do(ctx, b, "clear", 0), 1)
+				r.Count("ops_"+p.do(ctx, b, "idle", 0), 1)
+			}
+			if res := provs[s.prov].do(ctx, b, "up", 0); res == "up-nostart" {
+				r.Inconclusive(fmt.Sprintf("history %d: provider resolver never started after up", idx))
+				return false, ""
+			}
+			if !waitHandlers() {
+				return false, ""
+			}
+			provs[s.prov].do(ctx, b, "clear", 0)
+			provs[s.prov].do(ctx, b, "idle", 0)
+			for k, op := range s.ops[0] {
+				r.Count("ops_"+provs[s.prov].do(ctx, b, op, s.pick+k), 1)
+			}
+			r.Count("floods", 1)
+			r.Count("flood_ops", len(s.ops[0]))
 		case "gate-close":
 			for _, rs := range streams {
 				rs.s.closeGate()
@@ -905,14 +1050,16 @@ func runHistory(r *vf.Run, h *history, idx int) (nontrivial bool, obsSig string)
 func TestCheck(t *testing.T) {
 	r := vf.Start(t, "C36", vf.Exploration)
 	defer r.Finish()
-	r.SetRule("histories from a PRNG: 0-3 harness provider controllers on a real in-memory bus (initially up or down, eager start-up values 0-2, eager idle), 3-12 steps drawn from {single op, concurrent burst of 0-4 ops per provider, close/open the stream's Send gate, start a second lookup stream, checkpoint}; ops = add value, remove value, mark idle, mark busy, remove the provider controller, add it again; half of the providers additionally perform FOREIGN operations on the same directive: attach a value that is not an srpc.Invoker (string, struct, pointer, int, nil, func), withdraw such a value, remove an id that was removed before, remove an id that was never handed out, attach the same invoker object a second time, ClearValues. Ground truth = the harness' own count of live INVOKER values only. The real AccessRpcServiceServer.LookupRpcService runs against a recording harness stream. Oracle per stream: Exists/Removed strictly alternate starting with Exists; idle reports never repeat a value; at every checkpoint (all harness goroutines joined, every bus/server goroutine parked in two+ consecutive stack snapshots with unchanged counters, gate open) last availability report = Exists <=> the harness' own count of live provider values > 0, and last idle report = the directive's idle state seen by an independent idle callback; after cancelling the stream the call returns. A history is non-trivial when at least one report was sent; distinct = distinct history script. Plus: MarshalComponentID/UnmarshalComponentID round trip of many requests in one process: PRNG (service, server) strings and structured families of confusable requests - boundary-shifted pairs over every ASCII character (NUL included) and some multi-byte strings as separator (service+sep+server resp. server+sep+service coincide, separator at the boundary, doubled separator, empty server id), swapped pairs, pairs sharing one field, pairs sharing a long prefix; all interleaved in a PRNG order, then every request once more from 8 goroutines in another order; each decoded result must equal its own request and one component id must never be issued for two different requests; no panic on arbitrary component ids.")
+	r.SetRule("histories from a PRNG: 0-3 harness provider controllers on a real in-memory bus (initially up or down, eager start-up values 0-2, eager idle), 3-12 steps drawn from {single op, concurrent burst of 0-4 ops per provider, close/open the stream's Send gate, start a second lookup stream, checkpoint}; ops = add value, remove value, mark idle, mark busy, remove the provider controller, add it again; from a second PRNG stream 45% of the histories get 1-3 RESOLVER EXITS (the provider's resolver function returns nil / context.Canceled / another error while the lookup stream is open; its values stay, a later remove+add of the provider replaces it by a fresh resolver) placed as single ops or inside bursts, and 20% get a FLOOD (Send gate closed, directive brought to no value / all idle, then 40-100 add/remove and busy/idle toggles of one provider, checkpoint, gate opened, checkpoint); a stream that has returned after a resolver was told to exit with an error other than context.Canceled owes no further reports (the server ends the stream with that error), every other stream does; half of the providers additionally perform FOREIGN operations on the same directive: attach a value that is not an srpc.Invoker (string, struct, pointer, int, nil, func), withdraw such a value, remove an id that was removed before, remove an id that was never handed out, attach the same invoker object a second time, ClearValues. Ground truth = the harness' own count of live INVOKER values only. The real AccessRpcServiceServer.LookupRpcService runs against a recording harness stream. Oracle per stream: Exists/Removed strictly alternate starting with Exists; idle reports never repeat a value; at every checkpoint (all harness goroutines joined, every bus/server goroutine parked in two+ consecutive stack snapshots with unchanged counters, gate open) last availability report = Exists <=> the harness' own count of live provider values > 0, and last idle report = the directive's idle state seen by an independent idle callback; after cancelling the stream the call returns. A history is non-trivial when at least one report was sent; distinct = distinct history script. Plus: MarshalComponentID/UnmarshalComponentID round trip of many requests in one process: PRNG (service, server) strings and structured families of confusable requests - boundary-shifted pairs over every ASCII character (NUL included) and some multi-byte strings as separator (service+sep+server resp. server+sep+service coincide, separator at the boundary, doubled separator, empty server id), swapped pairs, pairs sharing one field, pairs sharing a long prefix; all interleaved in a PRNG order, then every request once more from 8 goroutines in another order; each decoded result must equal its own request and one component id must never be issued for two different requests; no panic on arbitrary component ids.")
 	r.Assume("controllerbus delivers value added/removed and idle callbacks of one directive instance in order (its per-instance callback queue); the provider controllers and the idle observer are harness code")
 	r.Assume("quiescence = every goroutine whose stack mentions rpc/access, controllerbus or a harness provider is parked (select / chan receive / chan send / cond wait) in 3 consecutive dumps with no harness counter change; watchdog expiry is inconclusive, never a verdict")
 
 	rng := r.Rand("c36-histories")
+	drng := r.Rand("c36-exits-floods")
 	n := r.N(400, 6000)
 	for i := 0; i < n; i++ {
 		h := genHistory(rng)
+		decorate(drng, h)
 		r.Begin(fmt.Sprintf("history %d: %s", i, h))
 		nt, obs := runHistory(r, h, i)
 		r.Case(h.String(), nt)
